@@ -9,7 +9,9 @@ for c in $(git rev-list --reverse main..agent-$ID); do
   subj=$(git log -1 --format=%s $c)
   if git log main --format=%s | grep -qxF "$subj"; then echo "skip (already in main): $subj"; continue; fi
   case "$subj" in
-    fix:*|hook:*) git cherry-pick $c >/dev/null 2>&1 && echo "picked: $subj" || { echo "CONFLICT cherry-picking $c: $subj"; git cherry-pick --abort; exit 3; } ;;
+    fix:*|hook:*) if git cherry-pick $c >/dev/null 2>&1; then echo "picked: $subj";
+       elif git diff --quiet && git diff --cached --quiet; then git cherry-pick --skip; echo "skip (empty, already applied): $subj";
+       else echo "CONFLICT cherry-picking $c: $subj"; git cherry-pick --abort; exit 3; fi ;;
     *) echo "SKIPPED (not fix:/hook:): $c $subj" ;;
   esac
 done
